@@ -7,7 +7,7 @@ rsync -a --exclude .git --exclude docs --exclude _examples --exclude tools /repo
 ( cd $t/repo && GOFLAGS=-mod=mod GOPROXY=off GOSUMDB=off GOTOOLCHAIN=local go build ./... ) || { echo "NO-COMPILE $p"; rm -rf $t; exit 3; }
 rc=0
 for id in "$@"; do
-  /verif/bin/wmcheck -property $id -repo $t/repo -no-evidence -verif /verif > $t/out.txt 2>&1
+  ${WMCHECK:-/verif/bin/wmcheck} -property $id -repo $t/repo -no-evidence -verif /verif > $t/out.txt 2>&1
   r=$?
   if [ $r -ne 0 ]; then rc=1; grep -E '^(VIOLATION|UNDECIDED) +C' $t/out.txt | cut -c1-330 | head -6; fi
 done
